@@ -2,7 +2,7 @@
 # usage: tools/keep8.sh - validate and keep the round-8 held-out changes under /tmp/seed8/out/<pid>/k{1,2}
 # (one demo.py per variant); records held-out detection (tools/heldout.py r8) for every kept one.
 cd "$(dirname "$0")/.."
-ls -d /tmp/seed8/out/C*/k* 2>/dev/null | while read d; do
+ls -d $(for p in ${PIDS:-C*}; do echo /tmp/seed8/out/$p/k*; done) 2>/dev/null | while read d; do
   [ -f $d/patch.diff ] && [ -f $d/demo.py ] && echo $d
 done | xargs -P ${JOBS:-8} -I{} sh -c '
   d={}; p=$(basename $(dirname $d)); v=$(basename $d)
